@@ -241,7 +241,42 @@ pub struct Exploration {
 }
 
 /// BFS over model states by appending one word; traces = (path, cursor word, wordbreaks mode)
+/// cursor words worth trying at one model state in the lean (quick) mode: the empty word, for
+/// every candidate offered there its first character and its full text, one level deeper inside
+/// words, a foreign word and one vocabulary item that is not expected
+fn lean_cursors(a: &RefAuto, set: &StateSet, probes: &Probes, vocab: &Vocabulary) -> BTreeSet<String> {
+    let mut out: BTreeSet<String> = BTreeSet::new();
+    out.insert(String::new());
+    out.insert("zz".into());
+    let first = candidates(a, set, "", probes);
+    let mut level1: Vec<String> = first.must.iter().cloned().collect();
+    level1.sort();
+    for c in &level1 {
+        let cs: Vec<char> = c.chars().collect();
+        out.insert(cs[..1].iter().collect());
+        out.insert(c.clone());
+        out.insert(format!("{c}z"));
+        // one level deeper (inside a word the first candidate is only the first item)
+        let deeper = candidates(a, set, c, probes);
+        for d in deeper.must.iter().take(3) {
+            if d != c {
+                let ds: Vec<char> = d.chars().collect();
+                out.insert(ds[..(cs.len() + 1).min(ds.len())].iter().collect());
+                out.insert(d.clone());
+            }
+        }
+    }
+    if let Some(w) = vocab.words.iter().find(|w| !level1.iter().any(|c| c.starts_with(w.as_str())) && w.as_str() != "zz") {
+        out.insert(w.clone());
+    }
+    out
+}
+
 pub fn explore(a: &RefAuto, probes: &Probes, vocab: &Vocabulary, depth: usize, max_traces: usize) -> Exploration {
+    explore_mode(a, probes, vocab, depth, max_traces, false)
+}
+
+pub fn explore_mode(a: &RefAuto, probes: &Probes, vocab: &Vocabulary, depth: usize, max_traces: usize, lean: bool) -> Exploration {
     let mut ex = Exploration::default();
     let mut seen: BTreeMap<StateSet, Vec<String>> = BTreeMap::new();
     let mut q: VecDeque<(StateSet, Vec<String>)> = VecDeque::new();
@@ -250,7 +285,11 @@ pub fn explore(a: &RefAuto, probes: &Probes, vocab: &Vocabulary, depth: usize, m
     q.push_back((s0, vec![]));
     let rules = Rules::default();
     let push_cursors = |ex: &mut Exploration, path: &Vec<String>, state: Option<StateSet>, all: bool| {
-        for c in &vocab.cursors {
+        let lean_set = match (&state, lean) {
+            (Some(st), true) => Some(lean_cursors(a, st, probes, vocab)),
+            _ => None,
+        };
+        for c in lean_set.as_ref().unwrap_or(&vocab.cursors) {
             if !all && !(c.is_empty() || c == "zz") {
                 continue;
             }
@@ -287,6 +326,10 @@ pub fn explore(a: &RefAuto, probes: &Probes, vocab: &Vocabulary, depth: usize, m
                     if dead_done.insert((set.clone(), w.clone())) {
                         let mut p = path.clone();
                         p.push(w.clone());
+                        if lean {
+                            ex.traces.push(Trace { path: p.clone(), cursor: String::new(), default_wb: true, state: None });
+                            continue;
+                        }
                         push_cursors(&mut ex, &p, None, false);
                         let mut p2 = p.clone();
                         if let Some(first) = vocab.words.iter().next() {
@@ -313,32 +356,62 @@ fn normalise_replies(a: &Answer) -> BTreeSet<String> {
     a.replies.iter().map(|r| r.strip_suffix(' ').unwrap_or(r).to_string()).collect()
 }
 
-/// expected outcome of a trace under `rules`: (matched?, must, may) after word-break stripping
-fn expected(a: &RefAuto, probes: &Probes, t: &Trace, rules: &Rules) -> Option<(bool, BTreeSet<String>, BTreeSet<String>)> {
+type Outcome3 = (bool, BTreeSet<String>, BTreeSet<String>);
+
+/// expected outcome(s) of a trace under `rules`: alternatives of (matched?, must, may) after
+/// word-break stripping; None = no verdict (a word readable by two kinds of items)
+fn expected(a: &RefAuto, probes: &Probes, t: &Trace, rules: &Rules) -> Option<Vec<Outcome3>> {
+    let wb = if t.default_wb { DEFAULT_WORDBREAKS } else { "" };
+    let complete_at = |set: &StateSet| -> Outcome3 {
+        let e = candidates(a, set, &t.cursor, probes);
+        let strip = |s: &BTreeSet<String>| s.iter().map(|c| strip_wordbreaks(c, &t.cursor, wb)).collect::<BTreeSet<String>>();
+        (true, strip(&e.must), strip(&e.may))
+    };
     let mut set = a.start_set();
     let n = t.path.len();
+    let mut alts: Vec<Outcome3> = vec![];
     for (i, w) in t.path.iter().enumerate() {
+        if rules.last_word_command_mismatch_completes && i + 1 == n {
+            // F7: if the last complete word is not read as a literal or within-word expression
+            // and some expected command with candidates does not list it, the walk may stop here
+            // and completion goes on from the state before that word
+            let edges = a.out_edges(&set);
+            let lit_or_sub = edges.iter().any(|(l, _)| match &a.labels[*l] {
+                RLabel::Lit { text, .. } => text == w,
+                RLabel::Sub { auto, .. } => refrun::sub_accepts(auto, w, probes, rules) == refrun::Tri::Yes,
+                _ => false,
+            });
+            let failing_cmd = edges.iter().any(|(l, _)| matches!(&a.labels[*l], RLabel::Cmd { text, .. } if { let c = probes.candidates(text); !c.is_empty() && !c.iter().any(|x| x == w) }));
+            if !lit_or_sub && failing_cmd {
+                alts.push(complete_at(&set));
+            }
+        }
         match read_word(a, &set, w, probes, rules) {
             Read::To(next) => set = next,
             Read::Ambiguous => return None,
             Read::Dead => {
-                if rules.last_word_command_mismatch_completes && i + 1 == n {
-                    // F7: the last complete word failed against an expected command: stay
-                    let has_cmd = a.out_edges(&set).iter().any(|(l, _)| matches!(&a.labels[*l], RLabel::Cmd { text, .. } if !probes.candidates(text).is_empty()));
-                    if has_cmd {
-                        break;
-                    }
-                }
-                return Some((false, BTreeSet::new(), BTreeSet::new()));
+                alts.push((false, BTreeSet::new(), BTreeSet::new()));
+                return Some(alts);
             }
         }
-        // F7 also pre-empts an any-word placeholder for the last word
-        let _ = i;
     }
-    let wb = if t.default_wb { DEFAULT_WORDBREAKS } else { "" };
-    let e = candidates(a, &set, &t.cursor, probes);
-    let strip = |s: &BTreeSet<String>| s.iter().map(|c| strip_wordbreaks(c, &t.cursor, wb)).collect::<BTreeSet<String>>();
-    Some((true, strip(&e.must), strip(&e.may)))
+    alts.push(complete_at(&set));
+    Some(alts)
+}
+
+fn agrees_any(alts: &[Outcome3], ans: &Answer) -> Result<(), String> {
+    let mut first_err = None;
+    for (i, e) in alts.iter().enumerate().rev() {
+        match agrees(e, ans) {
+            Ok(()) => return Ok(()),
+            Err(w) => {
+                if i == alts.len() - 1 {
+                    first_err = Some(w)
+                }
+            }
+        }
+    }
+    Err(first_err.unwrap_or_default())
 }
 
 fn agrees(exp: &(bool, BTreeSet<String>, BTreeSet<String>), ans: &Answer) -> Result<(), String> {
@@ -383,7 +456,7 @@ pub enum RunError {
 
 /// Compile `g` for bash (library pipeline; bound to the binary by C06/C14), explore the model,
 /// replay every trace in bash, classify disagreements with the deviation rules.
-pub fn run_grammar(g: &G, defs: &[ProbeDef], probes: &Probes, depth: usize, max_traces: usize, restrict_c01: bool, scratch: &Scratch) -> Result<GrammarRun, RunError> {
+pub fn run_grammar(g: &G, defs: &[ProbeDef], probes: &Probes, depth: usize, max_traces: usize, restrict_c01: bool, lean: bool, scratch: &Scratch) -> Result<GrammarRun, RunError> {
     let text = print_grammar(g);
     let c = match pipe::compile(&text, Shell::Bash) {
         Outcome::Ok(c) => c,
@@ -406,7 +479,7 @@ pub fn run_grammar(g: &G, defs: &[ProbeDef], probes: &Probes, depth: usize, max_
         }
     }
     let vocab = vocabulary(&a, probes);
-    let ex = explore(&a, probes, &vocab, depth, max_traces);
+    let ex = explore_mode(&a, probes, &vocab, depth, max_traces, lean);
     let queries: Vec<Query> = ex
         .traces
         .iter()
@@ -426,15 +499,16 @@ pub fn run_grammar(g: &G, defs: &[ProbeDef], probes: &Probes, depth: usize, max_
     let f7 = Rules { last_word_command_mismatch_completes: true, ..Default::default() };
     let f67 = Rules { within_word_prefix_accepted: true, last_word_command_mismatch_completes: true };
     for (t, ans) in run.exploration.traces.iter().zip(batch.answers.iter()) {
-        let Some(exp) = expected(&a, probes, t, &strict) else { continue };
+        let Some(exp_alts) = expected(&a, probes, t, &strict) else { continue };
+        let exp = exp_alts.last().unwrap().clone();
         run.validated += 1;
         run.outcomes.insert(crate::report::fnv(&format!("{:?}{:?}", ans.rc, ans.replies)));
-        if let Err(why) = agrees(&exp, ans) {
+        if let Err(why) = agrees_any(&exp_alts, ans) {
             // does exactly one listed deviation rule explain it?
             let mut key = None;
             for (name, r) in [("within-word-prefix-accepted", &f6), ("last-word-command-mismatch-completes", &f7), ("within-word-prefix-accepted+last-word-command-mismatch-completes", &f67)] {
                 if let Some(e2) = expected(&a, probes, t, r) {
-                    if agrees(&e2, ans).is_ok() {
+                    if agrees_any(&e2, ans).is_ok() {
                         key = Some(name.to_string());
                         break;
                     }
